@@ -52,7 +52,7 @@ def values_at(axis, level, n):
 
 
 def describe(tier):
-    return {'bases': ['PEK', 'SMKPEMK'], 'deviation_bound': 3, 'axes': AXES, 'precisions': [3, 4, 5, 6, 7, 8]}
+    return {'bases': ['PEK', 'KEK', 'MSKPEMK'], 'deviation_bound': 3, 'axes': AXES, 'precisions': [3, 4, 5, 6, 7, 8]}
 
 
 def shards(tier):
